@@ -16,6 +16,14 @@ CHECKS = {
             "runtime monitor: recovery kernels run on reference-encoded stripes with garbage in failed blocks under guard pages/ASan; all minors of the exported generator tables by DFS elimination",
             "All failure sets and all parity choices for nd 1..8 x np 1..6 (+z) through raid_rec, raid_data and each exported decoder variant; sampled sets for larger nd (thorough: every nd to 251); raid_check/raid_scan acceptance and rejection; determinants of every square minor of order 1..4 (quick) and 1..6 (thorough, 3.8e11 minors) of the exported tables.",
             "Stripes are encoded by the harness's own reference, not by the code under test. raid_scan uniqueness only asserted for whole-block random garbage."),
+    "C01": ("exploration",
+            "runtime monitor: harness-owned version store (bytes+mtime snapshot at sync time) compared with the data disks after damage+fix, fix/check exit status and summary tags; plain and ASan/UBSan builds",
+            "Random configurations and sync histories ending in a clean sync, then damage plans bounded by the parity count (whole devices, or <= N blocks of every stripe chosen from the decoded block map), then fix + check; thorough enumerates ALL device subsets of size <= N for arrays with nd+np <= 7. The oracle never trusts the tool: expected bytes, mtimes, link targets come from the harness's own record of what it wrote.",
+            "Sampled configurations/histories. One content copy outside the data disks always survives. Undetectable damage (truncated-hash collisions) is screened out with the frozen reference hash. Open finding F11 (unaligned truncated parity with format-2 content) is reported as KNOWN-FINDING."),
+    "C04": ("exploration",
+            "runtime monitor: one corruption at a time predicted from the independently decoded block map, compared with error:/parity_error: log tags, exit status and bad marks (status -G + decoded info words); negative control on the undamaged array first",
+            "Every block of every file and every parity block of small arrays (sampled above 40 per array in quick), 5 corruption shapes, swaps, combinations within and across stripes, for check, check -a and scrub plans full/new/100%/bad; the predicted set of (position, disk, file, file position) and (position, level) must equal the reported set, the status must fail, and scrub must mark exactly the affected stripes.",
+            "Arrays are sampled; reduced hash sizes and hash migration are in the configuration space. Collisions under truncated hashes are screened with the frozen reference hash and counted trivial. Strategy log lines (parity_error:...:hash) are not treated as location claims."),
     "C06": ("exploration",
             "runtime monitor: independent content-file decoder + GF(2^8) parity oracle over a harness-owned version store, applied after every command of random histories (plain and ASan/UBSan builds)",
             "After every single command of random histories (syncs of all kinds incl. partial, forced, pre-hash, autosave, kill-after-sync; scrub; fix after random damage; rehash; touch; disk removal/addition leaving position holes) each on-disk content file is decoded independently, the block-map invariants are asserted and every stripe whose blocks are all recorded synced is recomputed from the version store and compared with the parity files at the offset given by the recorded split sizes. This is the right level because the property is a state invariant quantified over histories: an oracle after each step over thousands of sampled histories observes exactly the state the property talks about.",
